@@ -10,6 +10,8 @@ func execExtraOp(ts []string) (string, bool) {
 		return execExtract(ts), true
 	case "do":
 		return execDo(ts), true
+	case "asm":
+		return execAsm(ts), true
 	}
 	return "", false
 }
